@@ -19,6 +19,7 @@ import (
 type RunSpec struct {
 	Property string          `json:"property"`
 	Seed     uint64          `json:"seed"`
+	Index    int             `json:"index"` // position of the run in its batch (enumerating checks use it)
 	Tier     string          `json:"tier"`
 	Cfg      json.RawMessage `json:"cfg,omitempty"`     // nil: generated from the seed
 	Actions  []netsim.Action `json:"actions,omitempty"` // nil: seeded scheduler
@@ -51,6 +52,7 @@ func trace(spec RunSpec, cfg json.RawMessage, w *netsim.World) {
 type RunResult struct {
 	Property    string             `json:"property"`
 	Seed        uint64             `json:"seed"`
+	Index       int                `json:"index"`
 	Cfg         json.RawMessage    `json:"cfg"`
 	Violations  []netsim.Violation `json:"violations,omitempty"`
 	Actions     []netsim.Action    `json:"actions,omitempty"`
